@@ -1,7 +1,7 @@
 (* C05 — stream operations terminate; no deadlock, panic or leaked goroutine (in-process core). *)
 From Coq Require Import ZArith List Bool Lia.
 From Grpchan Require Import gen.Inproc model.Chan1 proofs.Chan1.
-From Grpchan Require model.InprocStream proofs.StreamInv.
+From Grpchan Require model.InprocStream proofs.StreamInv corr.Stream proofs.StreamTrace.
 Import ListNotations.
 Close Scope Z_scope.
 
@@ -45,3 +45,12 @@ Theorem C05_full_stream_close_once : forall rs s,
   InprocStream.svrDone s = true /\ InprocStream.sState s = 2%Z.
 Proof. exact StreamInv.reachable_resp_closed_only_after_return. Qed.
 Print Assumptions C05_full_stream_close_once.
+
+(* What the correspondence check establishes when it accepts a schedule observed on the real code
+   (corr/Stream.v accepts_from): the observed rounds ARE a run of the LTS from its initial state, and
+   the state it ends in is reachable, hence satisfies the invariant (nothing panicked, bounded buffers). *)
+Theorem C05_accepted_schedule_is_a_safe_run : forall rs rounds,
+  Stream.accepts_from [InprocStream.init rs] rounds = true ->
+  exists s3, StreamTrace.exhibits (InprocStream.init rs) rounds s3 /\ StreamInv.reachable rs s3 /\ StreamInv.Inv s3.
+Proof. exact StreamTrace.accepted_schedule_is_a_safe_run. Qed.
+Print Assumptions C05_accepted_schedule_is_a_safe_run.
